@@ -257,8 +257,8 @@ def run(ctx) -> None:
             "hostile": hostile.recipes(version), "cuts": gens.cut_sets(200, 4)}).map(
                 lambda c: dict(c, api="lan") if (c["api"] == "ac" and c["phase"] == "auth") else c)
 
-    ctx.hyp("v3", cases(3), lambda c: _run_one(ctx, c), ctx.n(2800, 300000))
-    ctx.hyp("v2", cases(2), lambda c: _run_one(ctx, c), ctx.n(1200, 100000))
+    ctx.hyp("v3", cases(3), lambda c: _run_one(ctx, c), ctx.n(6000, 400000))
+    ctx.hyp("v2", cases(2), lambda c: _run_one(ctx, c), ctx.n(2400, 160000))
 
     # coverage-guided search (atheris/libFuzzer) over the same structured input space; an additional search,
     # the verdict never depends on it being available
